@@ -50,3 +50,10 @@ pub fn catch<T>(f: impl FnOnce() -> T) -> Result<T, String> {
     }
 }
 pub mod irdump;
+pub mod userty {
+    pub struct Foo(pub u32);
+    pub mod deep {
+        pub struct Bar<T>(pub T);
+    }
+}
+pub mod catalogue;
